@@ -594,6 +594,48 @@ func (sc *SpecCtx) call(e *SExpr) (*Val, error) {
 			return nil, fmt.Errorf("result_of: no call matching %s seen before this point", selName(e.Args[0]))
 		}
 		return &Val{T: g.ghostTerm(sc.cur, gn), Ty: g.ghostTypes[gn]}, nil
+	case "isboundmethod":
+		// isboundmethod(f, "(*T).M"): f is the method value x.M (a bound method of that
+		// name), not some other function or closure
+		if len(e.Args) != 2 {
+			return nil, fmt.Errorf("isboundmethod(f, \"(*T).M\")")
+		}
+		f, err := argv(0)
+		if err != nil {
+			return nil, err
+		}
+		ok := false
+		if f.Fn != nil && strings.HasSuffix(f.Fn.Name(), "$bound") && f.Fn.Synthetic != "" {
+			if obj := f.Fn.Object(); obj != nil {
+				for _, n := range funcNamesObj(obj) {
+					if n == selName(e.Args[1]) {
+						ok = true
+					}
+				}
+			}
+			if strings.TrimSuffix(f.Fn.Name(), "$bound") == selName(e.Args[1]) || strings.HasSuffix(strings.TrimSuffix(f.Fn.String(), "$bound"), selName(e.Args[1])) {
+				ok = true
+			}
+		}
+		if ok {
+			return &Val{T: "true", Ty: boolType}, nil
+		}
+		return &Val{T: "false", Ty: boolType}, nil
+	case "bound":
+		// bound(f, i): the i-th value captured by the closure / bound method value f
+		if len(e.Args) != 2 || e.Args[1].Kind != SNum {
+			return nil, fmt.Errorf("bound(f, index)")
+		}
+		f, err := argv(0)
+		if err != nil {
+			return nil, err
+		}
+		var idx int
+		fmt.Sscanf(e.Args[1].Name, "%d", &idx)
+		if idx < 0 || idx >= len(f.Binds) {
+			return nil, fmt.Errorf("bound(): the function value captures %d values", len(f.Binds))
+		}
+		return f.Binds[idx], nil
 	case "exported":
 		// exported(selector, name): the value the callee's contract exports under
 		// that name, as of the latest call matching selector
